@@ -86,10 +86,18 @@ def file_body(draw, fid, depth, counter, rules_visible, pools_visible):
             if vals:
                 l += b' |@ ' + b' '.join(vals)
             if rule == b'phony' and draw(st.integers(0, 1)) == 0:
+                # legacy self-references at any position of the explicit and of the order-only section, possibly repeated
+                # and followed by further inputs (the filter has to keep the section boundaries right in every case)
                 selfref = outs[0]
-                l = b'build ' + selfref + b': phony ' + b' '.join(ins + [selfref] if draw(st.booleans()) else [selfref] + ins)
-                if oo or draw(st.booleans()):
-                    l += b' || ' + b' '.join(oo + ([selfref] if draw(st.booleans()) else []))
+                n_exp, n_oo = draw(st.integers(0, 2)), draw(st.integers(0, 2))
+                if n_exp + n_oo == 0:
+                    n_exp = 1
+                oo2 = oo + some(0, 1, b'q')
+                exp_items = draw(st.permutations(ins + [selfref] * n_exp))
+                oo_items = draw(st.permutations(oo2 + [selfref] * n_oo))
+                l = b'build ' + selfref + b': phony ' + b' '.join(exp_items)
+                if oo_items:
+                    l += b' || ' + b' '.join(oo_items)
             l += b'\n'
             if ins and draw(st.integers(0, 6)) == 0:
                 l += b'  dyndep = ' + draw(st.sampled_from(ins + [b'nosuch'])) + b'\n'
@@ -187,7 +195,10 @@ def check_one(files, ninja, known, stats):
                 if not e.get('symmetric', True):
                     d = 'graph not symmetric (in/out edge links) for %r' % e['outs']
         if d is None:
-            stats['ref_accept' if r.get('ok') else 'ref_reject'] += 1
+            if 'uncertain' in r:
+                stats['skipped_undetermined: ' + r['uncertain']] += 1      # counted, not compared
+            else:
+                stats['ref_accept' if r.get('ok') else 'ref_reject'] += 1
             continue
         # attribute to listed findings through the reference's counterfactual switches only
         for sig, kw in (('D6_phony_selfref_filter_order_only_count', dict(quirk_d6=True)), ('D13_file_scope_beats_rule_without_own_scope', dict(quirk_d13=True)),
